@@ -256,7 +256,8 @@ func (r *Resolver) FetchProject(ctx context.Context, p project.RequirementConfig
 			return err
 		}
 
-		tmpDir, err := os.MkdirTemp("", "dawn-fetch-*")
+		// Stage the download next to its destination: the rename below must not cross file systems.
+		tmpDir, err := os.MkdirTemp(filepath.Dir(cacheDir), ".dawn-fetch-*")
 		if err != nil {
 			return err
 		}
